@@ -165,6 +165,22 @@ fn gen_cases(rng: &mut Rng, alg: usize, secret: &str, t: u64, exhaustive_mutatio
             for k in [0usize, 1, 8, sig.len() / 2, sig.len() - 1] {
                 out.push(Case { kind: "signature-prefix", method: "GET", auth: bearer(&format!("{}.{}.{}", parts[0], parts[1], b64u(&sig[..k]))), expect: "reject", payload: None });
             }
+            // same length, same multiset / checksum of bytes, different tag: a comparison that aggregates instead of comparing byte by byte
+            // (xor- or sum-folding, sorting, length-only) admits these
+            {
+                let same_len = |kind: &'static str, m: Vec<u8>, out: &mut Vec<Case>| {
+                    if m != sig {
+                        out.push(Case { kind, method: "GET", auth: bearer(&format!("{}.{}.{}", parts[0], parts[1], b64u(&m))), expect: "reject", payload: None });
+                    }
+                };
+                let mut m = sig.clone(); m.reverse(); same_len("signature-reversed", m, &mut out);
+                let mut m = sig.clone(); let (i, j) = (rng.below(m.len()), rng.below(m.len())); m.swap(i, j); same_len("signature-bytes-swapped", m, &mut out);
+                let mut m = sig.clone(); m.rotate_left(1); same_len("signature-rotated", m, &mut out);
+                let mut m = sig.clone(); let (i, j) = (rng.below(m.len()), rng.below(m.len())); if i != j { let bit = 1u8 << rng.below(8); m[i] ^= bit; m[j] ^= bit; } same_len("signature-two-byte-xor-cancels", m, &mut out);
+                let mut m = sig.clone(); let (i, j) = (rng.below(m.len()), rng.below(m.len())); if i != j { m[i] = m[i].wrapping_add(1); m[j] = m[j].wrapping_sub(1); } same_len("signature-two-byte-sum-cancels", m, &mut out);
+                same_len("signature-all-zero", vec![0u8; sig.len()], &mut out);
+                let mut m = sig.clone(); m.sort(); same_len("signature-sorted", m, &mut out);
+            }
             let mut ext = sig.clone();
             ext.push(0);
             out.push(Case { kind: "signature-extended", method: "GET", auth: bearer(&format!("{}.{}.{}", parts[0], parts[1], b64u(&ext))), expect: "reject", payload: None });
